@@ -204,17 +204,23 @@ pub fn run(ctx: &Ctx) -> Rep {
     } else {
         ctx.pick(1, 64, 1) as u32
     };
-    let hist_off: u32 = (ctx.seed % hist_stride as u64) as u32;
-    let hblocks: Vec<u32> = blocks.iter().copied().filter(|b| ctx.smoke() || b % hist_stride == hist_off).collect();
+    // words are selected one by one through a seeded hash, not by block: the words that matter to a lossy cache
+    // (a card's aliases) sit at fixed offsets from the 13 card blocks, so block-wise sampling would take or leave them together
+    let hblocks: Vec<u32> = blocks.clone();
     let sh = par_run(ctx, hblocks.len(), mk, |st, bi| {
         let hi = hblocks[bi] << 16;
         let top = if ctx.smoke() { 0x3F } else { 0xFFFF };
+        let mut hist_words = 0u64;
         for lo in 0..=top {
             let w = hi | lo;
+            if hist_stride > 1 && !ctx.smoke() && drive::mix(w as u64 ^ ctx.seed.wrapping_mul(0x9E37_79B9_7F4A_7C15)) % hist_stride as u64 != 0 {
+                continue;
+            }
             let want_w = if model_card_index(w).is_some() { w } else { 0 };
             st.cur[0] = w;
             st.cur_len = 1;
             st.cur_what = "filter histories";
+            hist_words += 1;
             for (ci, &c) in cards.iter().enumerate() {
                 let a = CardNumber::filter(w);
                 let b = CardNumber::filter(c);
@@ -228,7 +234,7 @@ pub fn run(ctx: &Ctx) -> Rep {
             }
             st.rep.evaluations += 104;
         }
-        st.rep.add("two_call_filter_histories", (top as u64 + 1) * 104);
+        st.rep.add("two_call_filter_histories", hist_words * 104);
     });
     let (rh, _) = merge_states(sh);
     rep.merge(rh);
@@ -245,7 +251,7 @@ pub fn run(ctx: &Ctx) -> Rep {
         rep.exhaustive = Some(true);
     }
     rep.rule = "all 52 named constants, the 52 deck entries, all 14 x 5 rank/suit member pairs through create, 16 field/character accessors on each of the 52 cards, \
-                and all 2^32 words through both filter entry points against an O(1) decode-and-rebuild membership test; two-call histories (word then card, card then word) for every card and every word of a seeded 1-in-64 of the 2^16-word blocks (thorough: every block in the fast leg); distinct = words + constants + pairs"
+                and all 2^32 words through both filter entry points against an O(1) decode-and-rebuild membership test; two-call histories (word then card, card then word) for every card and a seeded (per-word hash) 1-in-64 of all 2^32 words (thorough: every word in the fast leg); distinct = words + constants + pairs"
         .to_string();
     rep
 }
